@@ -14,6 +14,11 @@ import (
 // side, which the server side sees as EOF.
 
 type vrtNativeConn struct {
+	// schedule replay: at most one scripted chunk is in the socket at a time, handed over when the
+	// reader passes its Read gate (or, if it is already waiting in Read, when the chunk is pushed), so
+	// that every push arrives in its own Read as in the executor (nil = the peer's close)
+	queue   [][]byte
+	waiting bool
 	live    bool
 	client  *net.TCPConn
 	chunks  [][]byte
@@ -22,6 +27,54 @@ type vrtNativeConn struct {
 }
 
 var vrtConns = map[*net.TCPConn]*vrtNativeConn{}
+var vrtConnsMu sync.RWMutex
+
+func vrtConnOf(c *net.TCPConn) *vrtNativeConn {
+	vrtConnsMu.RLock()
+	defer vrtConnsMu.RUnlock()
+	return vrtConns[c]
+}
+
+func (nc *vrtNativeConn) deliver(item []byte) {
+	if item == nil {
+		nc.client.CloseWrite()
+		return
+	}
+	nc.client.Write(item)
+}
+
+// vrtGateConn: gate of a socket operation; a Read additionally takes the next scripted chunk.
+func vrtGateConn(kind string, c *net.TCPConn) {
+	vrtGate(kind)
+	if kind != "conn.Read" || !vrtSchedOn() {
+		return
+	}
+	nc := vrtConnOf(c)
+	if nc == nil {
+		return
+	}
+	nc.mu.Lock()
+	defer nc.mu.Unlock()
+	if len(nc.queue) > 0 {
+		item := nc.queue[0]
+		nc.queue = nc.queue[1:]
+		nc.waiting = false
+		nc.deliver(item)
+	} else {
+		nc.waiting = true
+	}
+}
+
+func (nc *vrtNativeConn) schedPush(item []byte) {
+	nc.mu.Lock()
+	defer nc.mu.Unlock()
+	if nc.waiting {
+		nc.waiting = false
+		nc.deliver(item)
+		return
+	}
+	nc.queue = append(nc.queue, item)
+}
 
 func vrt_NewTCPConn() *net.TCPConn {
 	ln, err := net.ListenTCP("tcp", &net.TCPAddr{IP: net.IPv4(127, 0, 0, 1)})
@@ -39,7 +92,9 @@ func vrt_NewTCPConn() *net.TCPConn {
 	}
 	cc.SetNoDelay(true)
 	nc := &vrtNativeConn{client: cc}
+	vrtConnsMu.Lock()
 	vrtConns[sc] = nc
+	vrtConnsMu.Unlock()
 	go func() {
 		buf := make([]byte, 4096)
 		for {
@@ -57,7 +112,13 @@ func vrt_NewTCPConn() *net.TCPConn {
 
 func vrt_ConnPushRead(c *net.TCPConn, data []byte) {
 	vrtGate("push")
-	nc := vrtConns[c]
+	nc := vrtConnOf(c)
+	if nc.live && vrtSchedOn() {
+		if len(data) > 0 {
+			nc.schedPush(append([]byte{}, data...))
+		}
+		return
+	}
 	if nc.live {
 		if len(data) > 0 {
 			nc.client.Write(data)
@@ -70,12 +131,16 @@ func vrt_ConnPushRead(c *net.TCPConn, data []byte) {
 
 // vrt_ConnLive: reads block when no scripted data is left (instead of reporting EOF); data pushed
 // afterwards is delivered at once, each push in its own Read.
-func vrt_ConnLive(c *net.TCPConn) { vrtConns[c].live = true }
+func vrt_ConnLive(c *net.TCPConn) { vrtConnOf(c).live = true }
 
 // vrt_ConnEOF: the peer closes its side.
 func vrt_ConnEOF(c *net.TCPConn) {
 	vrtGate("eof")
-	vrtConns[c].client.CloseWrite()
+	if vrtSchedOn() {
+		vrtConnOf(c).schedPush(nil)
+		return
+	}
+	vrtConnOf(c).client.CloseWrite()
 	time.Sleep(40 * time.Millisecond)
 }
 
@@ -102,7 +167,7 @@ func vrt_Wake() {
 
 // vrt_ConnStart begins delivering the script (natively); the harness then runs the reader.
 func vrt_ConnStart(c *net.TCPConn) {
-	nc := vrtConns[c]
+	nc := vrtConnOf(c)
 	go func() {
 		for _, ch := range nc.chunks {
 			if len(ch) > 0 {
@@ -115,7 +180,8 @@ func vrt_ConnStart(c *net.TCPConn) {
 }
 
 func vrt_ConnWritten(c *net.TCPConn) []byte {
-	nc := vrtConns[c]
+	vrtGate("observe")
+	nc := vrtConnOf(c)
 	time.Sleep(60 * time.Millisecond)
 	nc.mu.Lock()
 	defer nc.mu.Unlock()
